@@ -50,3 +50,8 @@
 (declare-fun bech32Decode (Str) Bytes)
 ; an address rendered by AccAddress.String parses back (bech32 round trip of the SDK, for non-empty addresses)
 (assert (forall ((a Bytes)) (! (=> (> (blen a) 0) (and (= (bech32Err (bech32 a)) NoErr) (= (bech32Decode (bech32 a)) a))) :pattern ((bech32 a)))))
+; first byte (family tag) of a key
+(define-fun tagOf ((k Key)) Int
+  (ite (is-KDef k) 1 (ite (is-KBind k) 2 (ite (is-KOwnerBind k) 3 (ite (is-KOwner k) 4 (ite (is-KOwnerProv k) 5 (ite (is-KPricing k) 6 (ite (is-KWAddr k) 7
+  (ite (is-KCtx k) 8 (ite (is-KExpQ k) 9 (ite (is-KNewQ k) 16 (ite (is-KExpH k) 17 (ite (is-KNewH k) 18 (ite (is-KReq k) 19 (ite (is-KActB k) 20
+  (ite (is-KActID k) 21 (ite (is-KResp k) 22 (ite (is-KVol k) 23 (ite (is-KEarned k) 24 (ite (is-KOwnerEarned k) 25 0))))))))))))))))))))
